@@ -39,8 +39,8 @@ def swRec (S : Matrix) : List Nat → List Nat → Int
     if sc > 0 then sc else 0
 termination_by r q => r.length + q.length
 
-/-- all gap scores are non-positive -/
-def GapsNonPos (S : Matrix) : Prop := ∀ x, S x 0 ≤ 0 ∧ S 0 x ≤ 0
+/-- the gap scores of all letters that occur are non-positive -/
+def GapsNonPos (S : Matrix) (r q : List Nat) : Prop := (∀ x ∈ r, S x 0 ≤ 0) ∧ (∀ y ∈ q, S 0 y ≤ 0)
 
 theorem isGlobal_nil {r q : List Nat} (h : IsGlobal [] r q) : r = [] ∧ q = [] := by
   simp [IsGlobal, projR, projQ] at h; exact ⟨h.1, h.2⟩
@@ -117,15 +117,15 @@ theorem nwRec_attain (S : Matrix) : ∀ (r q : List Nat),
 theorem fitRec_nil (S : Matrix) (r : List Nat) : gRec S true r [] = 0 := by
   cases r <;> simp [gRec]
 
-theorem fitRec_upper (S : Matrix) (hg : GapsNonPos S) : ∀ (a : Aln) (r r' q : List Nat),
-    r' <+: r → IsGlobal a r' q → scoreLin S a ≤ gRec S true r q := by
+theorem fitRec_upper (S : Matrix) : ∀ (a : Aln) (r r' q : List Nat),
+    (∀ x ∈ r, S x 0 ≤ 0) → r' <+: r → IsGlobal a r' q → scoreLin S a ≤ gRec S true r q := by
   intro a
   induction a with
   | nil =>
-    intro r r' q _ h; obtain ⟨rfl, rfl⟩ := isGlobal_nil h
+    intro r r' q _ _ h; obtain ⟨rfl, rfl⟩ := isGlobal_nil h
     simp [scoreLin, fitRec_nil]
   | cons c a ih =>
-    intro r r' q hp h
+    intro r r' q hr hp h
     cases c with
     | m x y =>
       simp only [IsGlobal, projR, projQ] at h
@@ -134,7 +134,7 @@ theorem fitRec_upper (S : Matrix) (hg : GapsNonPos S) : ∀ (a : Aln) (r r' q : 
       | nil => simp at hp
       | cons x' r₀ =>
         obtain ⟨rfl, hp'⟩ := List.cons_prefix_cons.mp hp
-        have := ih r₀ (projR a) (projQ a) hp' ⟨rfl, rfl⟩
+        have := ih r₀ (projR a) (projQ a) (fun z hz => hr z (List.mem_cons_of_mem _ hz)) hp' ⟨rfl, rfl⟩
         have h1 := max3_ge_left (gRec S true r₀ (projQ a) + S x y)
           (gRec S true r₀ (y :: projQ a) + S x 0) (gRec S true (x :: r₀) (projQ a) + S 0 y)
         simp only [scoreLin, colScore, gRec]; omega
@@ -145,11 +145,11 @@ theorem fitRec_upper (S : Matrix) (hg : GapsNonPos S) : ∀ (a : Aln) (r r' q : 
       | nil => simp at hp
       | cons x' r₀ =>
         obtain ⟨rfl, hp'⟩ := List.cons_prefix_cons.mp hp
-        have := ih r₀ (projR a) (projQ a) hp' ⟨rfl, rfl⟩
+        have := ih r₀ (projR a) (projQ a) (fun z hz => hr z (List.mem_cons_of_mem _ hz)) hp' ⟨rfl, rfl⟩
         cases hq : projQ a with
         | nil =>
           rw [hq, fitRec_nil] at this
-          have := (hg x).1
+          have := hr x (by simp)
           simp only [scoreLin, colScore, fitRec_nil]; omega
         | cons y q' =>
           rw [hq] at this
@@ -159,7 +159,7 @@ theorem fitRec_upper (S : Matrix) (hg : GapsNonPos S) : ∀ (a : Aln) (r r' q : 
     | l y =>
       simp only [IsGlobal, projR, projQ] at h
       obtain ⟨rfl, rfl⟩ := h
-      have := ih r (projR a) (projQ a) hp ⟨rfl, rfl⟩
+      have := ih r (projR a) (projQ a) hr hp ⟨rfl, rfl⟩
       cases r with
       | nil => simp only [scoreLin, colScore, gRec]; omega
       | cons x r₀ =>
@@ -214,15 +214,15 @@ theorem swRec_ge (S : Matrix) (a b : Nat) (r q : List Nat) :
       ≤ swRec S (a :: r) (b :: q) := by
   simp only [swRec]; split <;> omega
 
-theorem swRec_upper (S : Matrix) (hg : GapsNonPos S) : ∀ (a : Aln) (r r' q q' : List Nat),
-    r' <+: r → q' <+: q → IsGlobal a r' q' → scoreLin S a ≤ swRec S r q := by
+theorem swRec_upper (S : Matrix) : ∀ (a : Aln) (r r' q q' : List Nat),
+    (∀ x ∈ r, S x 0 ≤ 0) → (∀ y ∈ q, S 0 y ≤ 0) → r' <+: r → q' <+: q → IsGlobal a r' q' → scoreLin S a ≤ swRec S r q := by
   intro a
   induction a with
   | nil =>
-    intro r r' q q' _ _ _
+    intro r r' q q' _ _ _ _ _
     simpa [scoreLin] using swRec_nonneg S r q
   | cons c a ih =>
-    intro r r' q q' hpr hpq h
+    intro r r' q q' hr hq hpr hpq h
     cases c with
     | m x y =>
       simp only [IsGlobal, projR, projQ] at h
@@ -235,7 +235,8 @@ theorem swRec_upper (S : Matrix) (hg : GapsNonPos S) : ∀ (a : Aln) (r r' q q' 
         | cons y' q₀ =>
           obtain ⟨rfl, hpr'⟩ := List.cons_prefix_cons.mp hpr
           obtain ⟨rfl, hpq'⟩ := List.cons_prefix_cons.mp hpq
-          have := ih r₀ (projR a) q₀ (projQ a) hpr' hpq' ⟨rfl, rfl⟩
+          have := ih r₀ (projR a) q₀ (projQ a) (fun z hz => hr z (List.mem_cons_of_mem _ hz))
+            (fun z hz => hq z (List.mem_cons_of_mem _ hz)) hpr' hpq' ⟨rfl, rfl⟩
           have h1 := max3_ge_left (swRec S r₀ q₀ + S x y)
             (swRec S r₀ (y :: q₀) + S x 0) (swRec S (x :: r₀) q₀ + S 0 y)
           have h2 := swRec_ge S x y r₀ q₀
@@ -247,11 +248,11 @@ theorem swRec_upper (S : Matrix) (hg : GapsNonPos S) : ∀ (a : Aln) (r r' q q' 
       | nil => simp at hpr
       | cons x' r₀ =>
         obtain ⟨rfl, hpr'⟩ := List.cons_prefix_cons.mp hpr
-        have := ih r₀ (projR a) q (projQ a) hpr' hpq ⟨rfl, rfl⟩
+        have := ih r₀ (projR a) q (projQ a) (fun z hz => hr z (List.mem_cons_of_mem _ hz)) hq hpr' hpq ⟨rfl, rfl⟩
         cases q with
         | nil =>
           rw [swRec_nil_right] at this
-          have := (hg x).1
+          have := hr x (by simp)
           simp only [scoreLin, colScore, swRec_nil_right]; omega
         | cons y q₀ =>
           have h1 := max3_ge_mid (swRec S r₀ q₀ + S x y)
@@ -265,11 +266,11 @@ theorem swRec_upper (S : Matrix) (hg : GapsNonPos S) : ∀ (a : Aln) (r r' q q' 
       | nil => simp at hpq
       | cons y' q₀ =>
         obtain ⟨rfl, hpq'⟩ := List.cons_prefix_cons.mp hpq
-        have := ih r (projR a) q₀ (projQ a) hpr hpq' ⟨rfl, rfl⟩
+        have := ih r (projR a) q₀ (projQ a) hr (fun z hz => hq z (List.mem_cons_of_mem _ hz)) hpr hpq' ⟨rfl, rfl⟩
         cases r with
         | nil =>
           simp only [swRec] at this ⊢
-          have := (hg y).2
+          have := hq y (by simp)
           simp only [scoreLin, colScore]; omega
         | cons x r₀ =>
           have h1 := max3_ge_right (swRec S r₀ q₀ + S x y)
